@@ -48,11 +48,13 @@ package profile
 
 //@ func NewConfigurableProfile
 //@   property C20
+//@   safety
 //@   requires config != nil
 //@   ensures res != nil && res.config == config
 
 //@ func getParserForFormat
 //@   property C20
+//@   safety
 //@   ensures res != nil
 
 //@ func (p *ConfigurableProfile) ParseModelsResponse
